@@ -196,6 +196,35 @@ class Clock:
         return getattr(_t, name)
 
 
+class Quiet:
+    """Silences what pymoca / ANTLR print while the harness feeds them broken texts and damaged caches:
+    ANTLR's console error listener writes to sys.stderr, pymoca logs warnings.  Output only; no behaviour."""
+
+    def __enter__(self):
+        import logging
+        import sys
+        self.err = sys.stderr
+        sys.stderr = _Null()
+        self.lg = logging.getLogger("pymoca")
+        self.level = self.lg.level
+        self.lg.setLevel(logging.CRITICAL + 1)
+        return self
+
+    def __exit__(self, *a):
+        import sys
+        sys.stderr = self.err
+        self.lg.setLevel(self.level)
+        return False
+
+
+class _Null:
+    def write(self, s):
+        return len(s)
+
+    def flush(self):
+        pass
+
+
 def sha(txt):
     return hashlib.sha256(txt.encode("utf-8")).hexdigest()
 
